@@ -86,9 +86,9 @@ pub fn run(ctx: &Ctx) {
          the harness's own walk; a top-level struct/enum rendering contains its name and every field and variant name. non-trivial = \
          tree with a named node and depth >= 2; distinct = hash(tree); per-kind hit counts in 'classes'",
     );
-    let n = ctx.tier.pick(60_000, 3_000_000);
+    let n = ctx.tier.pick(400_000, 4_000_000);
     ctx.par_proptest("random-trees", n, || schematree::arb_tree(TreeCfg::default()), |t, l| check(t, l));
-    let n = ctx.tier.pick(6_000, 100_000);
+    let n = ctx.tier.pick(30_000, 300_000);
     ctx.par_proptest("deep-and-wide", n, || schematree::arb_deep_or_wide(200, 200), |t, l| check(t, l));
     super::corpus_checks::c19(ctx);
 }
